@@ -268,6 +268,40 @@ fn case(rec: &mut Rec, ctx: &Ctx, idx: u64, rng: &mut ChaCha20Rng) {
   let _ = ctx;
 }
 
+/// one threshold: t shares through create_share, grouped with and without one missing
+fn threshold_sweep(rec: &mut Rec, _ctx: &Ctx, t: u64, rng: &mut ChaCha20Rng) {
+  let t = t as u32 + 1;
+  let m = rand_bytes_in(rng, 1..20);
+  let epoch = "sweep";
+  rec.evals += 1;
+  rec.ev("threshold_sweep");
+  rec.case(&("threshold", t));
+  let mut lines: Vec<String> = Vec::new();
+  let mut key = String::new();
+  for _ in 0..t {
+    let v: serde_json::Value = match serde_json::from_str(&create_share(&m, t, epoch)) {
+      Ok(v) => v,
+      Err(_) => return,
+    };
+    key = v["key"].as_str().unwrap_or("").to_string();
+    lines.push(v["share"].as_str().unwrap_or("").to_string());
+  }
+  match quiet(rec, || group_shares(&lines.join("\n"), epoch)) {
+    Some(Some(k)) if k == key => {}
+    Some(other) => rec.violation(
+      "group-shares:wrong-result:threshold-sweep",
+      format!("threshold {}: {} distinct shares of one measurement gave {:?}, the clients hold {}", t, t, other, key),
+      json!({"threshold": t, "measurement": hex(&m)}),
+    ),
+    None => {}
+  }
+}
+
 pub fn run(ctx: &Ctx) -> Rec {
-  par_run(ctx, "wasm", ctx.n(5000, 200_000), |rec, i, rng| case(rec, ctx, i, rng))
+  let mut rec = par_run(ctx, "wasm", ctx.n(5000, 200_000), |rec, i, rng| case(rec, ctx, i, rng));
+  // every threshold 1..=T once: 160 in the quick tier, 1400 in the thorough tier
+  let tmax = if ctx.thorough() { 1400 } else { 160 };
+  rec.merge(par_run(ctx, "threshold-sweep", tmax, |rec, i, rng| threshold_sweep(rec, ctx, tmax - 1 - i, rng)));
+  rec.note("threshold_sweep_max", json!(tmax));
+  rec
 }
